@@ -190,6 +190,43 @@ class DT(Model):
     def __repr__(self):
         return "dtype(%s)" % self.name
 
+    @property
+    def type(self):
+        """dtype.type: the scalar constructor of the dtype - calling it CASTS its argument"""
+        return DTCast(self)
+
+
+class DTCast(Model):
+    """np.<dtype>(x) reached as dtype.type(x): floating-point targets keep a python number (precision is not modelled), integer and boolean
+    targets TRUNCATE it, which is another number unless the argument was integral already"""
+
+    def __init__(self, dt):
+        self.dt = dt
+
+    def __call__(self, x, *a, **k):
+        if not (a or k) and "generic" in getattr(x, "kinds", ()) and "integer" in getattr(x, "kinds", ()) and self.dt.name.rstrip("0123456789") in ("float", "int"):
+            return x            # an integer numpy scalar keeps its value in a floating-point or integer type (width not modelled)
+        if a or k or isinstance(x, bool) or not isinstance(x, (int, float)):
+            raise Unsupported("%s.type(%r)" % (self.dt, x))
+        kind = self.dt.name.rstrip("0123456789")
+        if kind == "float":
+            return float(x)
+        if kind in ("int", "uint"):
+            if x != x or x in (float("inf"), float("-inf")):
+                raise Raised("ValueError", None, "cannot convert float NaN/inf to integer")
+            return int(x)
+        if kind == "bool":
+            return bool(x)
+        raise Unsupported("%s.type(%r)" % (self.dt, x))
+
+
+def isscalar(x):
+    """np.isscalar: python numbers and strings and numpy scalars; never an ndarray (0-d ones included), a list or an object"""
+    if isinstance(x, (bool, int, float, complex, str, bytes)):
+        return True
+    kinds = getattr(x, "kinds", ())
+    return "generic" in kinds and "ndarray" not in kinds
+
 
 def issubdtype(d, t):
     if not isinstance(d, DT):
@@ -320,7 +357,7 @@ def hooks():
     return {
         "ext": {"numpy.require": lambda x, *a, **k: x, "numpy.ascontiguousarray": lambda x, *a, **k: x, "numpy.asarray": _as_array(False, keeps_subclass=False), "numpy.asanyarray": _as_array(False), "numpy.array": _as_array(True, keeps_subclass=False),
                 "numpy.ascontiguousarray": _as_array(True), "numpy.copy": _as_array(True),
-                "numpy.issubdtype": issubdtype, "numpy.can_cast": can_cast,
+                "numpy.issubdtype": issubdtype, "numpy.can_cast": can_cast, "numpy.isscalar": isscalar,
                 "numpy.reciprocal": lambda x: x, "numpy.amin": lambda x: x, "numpy.amax": lambda x: x},
         "globals": {"units/units.py::units": units_factory},
         "class": {},
